@@ -85,7 +85,9 @@ def matrix_svd(A, e=1.E-10, r=1.E+12):
     w = w[:rank]
     U = U[:, :rank]
 
-    V = ((1. / w)[:, np.newaxis] * U.T) @ A if m <= n else U.T
+    w_inv = np.zeros_like(w)
+    w_inv[w > 0] = 1. / w[w > 0]
+    V = (w_inv[:, np.newaxis] * U.T) @ A if m <= n else U.T
     U = U * w if m <= n else A @ U
 
     return U, V
